@@ -53,6 +53,8 @@ type Opts struct {
 	// HoldGo: goroutines started on the client operation paths (rewritten `go` statements of
 	// internal/dmap/put.go and get.go) are queued until DeliverAsync instead of running on their own.
 	HoldGo bool
+	// PortOf: member idx i gets the name 127.0.0.1:(41001+PortOf[i]) (default: i itself).
+	PortOf []int
 }
 
 func (o Opts) withDefaults() Opts {
@@ -102,7 +104,19 @@ type Cluster struct {
 
 const basePort = 41001
 
-func nameOf(idx int) string { return fmt.Sprintf("127.0.0.1:%d", basePort+idx) }
+// portMap (Opts.PortOf): member idx i listens on basePort+portMap[i] instead of basePort+i. Member names
+// feed consistent hashing, so another assignment of names gives another sequence of partition moves
+// for the same sequence of joins (e.g. a partition that moves twice before its first owner handed over).
+var portMap []int
+
+func portOf(idx int) int {
+	if idx < len(portMap) {
+		return portMap[idx]
+	}
+	return idx
+}
+
+func nameOf(idx int) string { return fmt.Sprintf("127.0.0.1:%d", basePort+portOf(idx)) }
 
 // New boots a cluster of o.N members (sequential joins, all events delivered, stabilised).
 // openClients: the cluster clients of the current cluster. Each owns a background goroutine
@@ -126,6 +140,7 @@ func New(o Opts) *Cluster {
 	world.Reset()
 	simnet.Reset()
 	c := &Cluster{O: o}
+	portMap = o.PortOf
 	vsync.Spawn = nil
 	if o.Async || o.HoldGo {
 		vsync.Spawn = func(f func()) { c.pending = append(c.pending, f) }
@@ -179,10 +194,10 @@ func (c *Cluster) newConfig(idx int) *config.Config {
 		cfg.LoadFactor = o.LoadFactor
 	}
 	cfg.BindAddr = "127.0.0.1"
-	cfg.BindPort = basePort + idx
+	cfg.BindPort = basePort + portOf(idx)
 	mc := memberlist.DefaultLocalConfig()
 	mc.BindAddr = "127.0.0.1"
-	mc.BindPort = 42001 + idx
+	mc.BindPort = 42001 + portOf(idx)
 	cfg.MemberlistConfig = mc
 	for _, m := range c.Live() {
 		cfg.Peers = append(cfg.Peers, m.Name)
